@@ -696,6 +696,10 @@ static void server_main(void *)
 // ------------------------------------------------------------------ client side
 static void client_note_result(ClientSt &k, ssize_t r)
 {
+	// every client call is made with valid arguments on a connection the client believes to be up: "invalid argument" is
+	// never the explanation for a refusal (refusals are try-again, too-large, timed-out or disconnected)
+	if (r == -EINVAL && !k.saw_disconnect && !G.server_dead && k.conn && !k.conn->server_gone)
+		VIOL(which == 3 || which == 4 ? which : 2, "call-refused-as-invalid", "qb_ipcc_send", "client %d: a call with valid arguments on an established connection returned -EINVAL", k.idx);
 	if (is_disc_err(r)) {
 		if (!k.saw_disconnect) { k.saw_disconnect = true; k.disconnect_seen_at = now_ns(); }
 		if (k.conn) k.conn->client_gone = true;
